@@ -250,6 +250,26 @@ def run(tier, seed, replay=None):
             r.update({"inv": o["inv"], "exit": o["exit"]})
             recs.append(r)
         res, states = core.eval_report_all("CargoFmt", "CargoFmt.cfg", recs, scratch=base)
+        # the option handling (CargoFmtArgs.tla): --check / --message-format / verbosity /
+        # informational flags x what every rustfmt invocation does (succeed, fail, killed)
+        from . import cfauni
+        (base / "args").mkdir()
+        arecs = cfauni.observe(base / "args", STANDIN)
+        afails, astates = cfauni.evaluate(arecs, base)
+        for idx, f in afails:
+            r = arecs[idx]
+            if f["fails"]:
+                v.violation(f"args:{','.join(sorted(f['fails']))}:{' '.join(r['_argv'])}:st={r['f']['st']}",
+                            f"{sorted(f['fails'])} for `cargo {' '.join(r['_argv'])}` with every rustfmt "
+                            f"invocation ending in status {r['f']['st']}: exit {r['o']['exit']}, "
+                            f"command lines {r['o']['calls']}",
+                            {"argv": r["_argv"], "observed": r["o"], "model": f["oper"],
+                             "stderr": r["_stderr"]})
+            elif f["model"]:
+                v.violation(f"args-model:{','.join(sorted(f['model']))}:{' '.join(r['_argv'])}",
+                            f"CargoFmtArgs.tla: the transcription itself breaks {f['model']}", f)
+            else:
+                v.drift += 1
     n_model = 0
     for idx, f in res:
         sc, o = sel[idx], obs[idx]
@@ -283,6 +303,7 @@ def run(tier, seed, replay=None):
                    "second one) x virtual/rooted x {root, --all, -p m1, -p m1 -p m2, -p nosuch} x "
                    "cwd {root, member, member/src} with scripted stand-in statuses (0/1/2/killed)",
            "universe": len(uni), "model_op_differs_from_decl": n_model,
+           "option_combinations": len(arecs), "option_states": astates,
            "exhaustive": tier == "thorough"}
     return v.finish("model_checking", cov, [
         "`cargo metadata --no-deps --offline` of the installed cargo describes the workspace",
